@@ -3,6 +3,9 @@ use crate::report::{Ctx, Part};
 
 pub mod common;
 pub mod c01;
+pub mod c02;
+pub mod c03;
+pub mod c04;
 
 pub struct Entry {
     pub id: &'static str,
@@ -18,7 +21,7 @@ pub fn lookup(id: &str) -> Option<&'static Entry> {
     ALL.iter().find(|e| e.id == id)
 }
 
-pub static ALL: &[Entry] = &[c01::ENTRY];
+pub static ALL: &[Entry] = &[c01::ENTRY, c02::ENTRY, c03::ENTRY, c04::ENTRY];
 
 pub fn replay(ctx: &Ctx, path: &str) -> i32 {
     common::replay_file(ctx, path)
